@@ -205,6 +205,16 @@ def rule_cc(ctx):
                 continue
             # ---------------- anything else: only under `if freeze`
             ok = _under_freeze_true(r, fn)
+            if ok:
+                # what is handed out as "frozen" must itself be frozen: <anything>.copy(freeze=freeze) or a slice of the
+                # frozen input by one drawn index array
+                frozen_result = (isinstance(v, ast.Call) and isinstance(v.func, ast.Attribute) and v.func.attr == 'copy' and (
+                    any(kw.arg == 'freeze' and (A.is_name(kw.value, 'freeze') or A.is_const(kw.value, True)) for kw in v.keywords)
+                    or (v.args and (A.is_name(v.args[0], 'freeze') or A.is_const(v.args[0], True))))) or (
+                    isinstance(v, ast.Subscript) and _is_input_copy(v.value, True))
+                rep.ob('CC', K.key(cls, 'copy', 'frozen-branch-returns-a-frozen-dataset'), frozen_result, r,
+                       '' if frozen_result else 'copy(freeze=True) returns %s, which is not itself frozen: if it still contains a '
+                       'per-epoch random stage the "frozen" copy changes its order on every iteration' % A.short(v, 70))
             rep.ob('CC', K.key(cls, 'copy', 'foreign-return'), ok, r,
                    'returns another kind of dataset only under freeze=True (deliberate: a frozen view)' if ok
                    else 'copy() returns something that is not a reconstruction of the stage outside the freeze branch: '
